@@ -62,6 +62,7 @@ class Interp:
     def write_field(self, ref: V, fname, val: V):
         owner, ty = self.field(ref.ty.cls, fname)
         val = sym.coerce(val, ty)
+        self.field_touched(owner, fname, ref.t, whole_write=val)  # dict sums (dictiter.py)
         self.heap.write(owner, fname, ty, ref.t, val.t)
 
     def ref_wf_term(self, t):
@@ -402,6 +403,9 @@ class Interp:
             return EmptyLiteral("dict")
         ks = [self.evalv(k, env) for k in node.keys]
         vs = [self.evalv(v, env) for v in node.values]
+        if any(v.ty != vs[0].ty for v in vs):
+            # heterogeneous values (JSON-like log records): an opaque value; only passed on to logging stubs
+            return V(TAny, self.ctx.fresh_const(z3.IntSort(), "dictlit"))
         ty = TDict(ks[0].ty if not isinstance(ks[0].ty, TEnum) else TInt, vs[0].ty)
         d = sym.dict_empty(ty)
         dom, val = sym.dict_dom(d), sym.dict_val(d)
